@@ -55,7 +55,8 @@ PeerCloses == peer = "open" /\ peer' = "fin"
 
 (* ------------------------------- watchdog ------------------------------- *)
 \* recv_timeout returns: Timeout (deadline passed, nothing queued), a message, or Disconnected
-WdTimeout == wd = "waiting" /\ deadline /\ pings = 0 /\ wd' = "timedout"
+\* (a disconnected channel is reported as such, not as a timeout)
+WdTimeout == wd = "waiting" /\ deadline /\ pings = 0 /\ txAlive /\ wd' = "timedout"
              /\ UNCHANGED <<rxAlive, txAlive, pings, sock, peer, inflight, deadline, rd, reads>>
 WdMessage == /\ wd = "waiting" /\ pings > 0
              /\ pings' = pings - 1
